@@ -78,6 +78,12 @@ def make_case(rng, ndim, ki, ko, nr, steady, r=None, t=None):
     c.inner_data, c.inner_data2 = data(ki, Ti, qi, hi)
     c.outer_data, c.outer_data2 = data(ko, To, qo, ho)
     c.params = dict(Ti=Ti, To=To, qi=qi, qo=qo, hi=hi, ho=ho)
+    # every second convective case: the fluid material's film coefficient depends on temperature (value `film` exactly
+    # at the fluid temperatures; the documented evaluation point of a ConvectiveBC is the fluid temperature)
+    # (decided from the drawn value, without another draw, so that the random stream of the other cases is unchanged;
+    # the knots are read from the case's data when the objects are built, see thermal_common.build)
+    if "conv" in (ki, ko) and int(round(ho * 64)) % 4 < 2:
+        c.film_tdep = True
     return c
 
 
